@@ -256,7 +256,7 @@ Qed.
 
 Lemma flags_set_default : forall s d,
   no_union (set_default s d) = no_union s /\ no_schema (set_default s d) = no_schema s /\
-  no_frozen (set_default s d) = no_frozen s /\ no_enum (set_default s d) = no_enum s /\
+  no_frozen (set_default s d) = no_frozen s /\ enums_ok (set_default s d) = enums_ok s /\
   sizes_ok (set_default s d) = sizes_ok s /\ frozen (mods_of (set_default s d)) = frozen (mods_of s).
 Proof. destruct s; repeat split; reflexivity. Qed.
 
@@ -265,11 +265,11 @@ Proof. destruct s; repeat split; reflexivity. Qed.
       Dict-schema parts; base without Union / Dict schema) *)
 
 Definition good (s : spec) : Prop :=
-  no_union s = true /\ no_schema s = true /\ no_frozen s = true /\ no_enum s = true /\
+  no_union s = true /\ no_schema s = true /\ no_frozen s = true /\ enums_ok s = true /\
   sizes_ok s = true /\ wf s.
 
 Definition base_ok (b : spec) : Prop :=
-  no_union b = true /\ no_schema b = true /\ sizes_ok b = true.
+  no_union b = true /\ no_schema b = true /\ sizes_ok b = true /\ enums_ok b = true.
 
 Definition ext_ok (q : quirks) (c : spec) : Prop :=
   forall b c', base_ok b -> extend_in q c b = Ok c' -> compat q b c' = true /\ good c'.
@@ -371,10 +371,10 @@ Qed.
 Lemma base_tuple_inv : forall es mn mx m, base_ok (STuple es mn mx m) ->
   0 <= mn /\ Forall base_ok es /\ (fixed_length mn mx = false -> es <> []).
 Proof.
-  intros es mn mx m (A & B & E). simpl in *. apply andb_true_iff in E as [E1 E2].
+  intros es mn mx m (A & B & E & N). simpl in *. apply andb_true_iff in E as [E1 E2].
   apply andb_true_iff in E1 as [E1 E3]. split. lia.
   split; [|intros F; rewrite F in E3; destruct es; [discriminate|congruence]].
-  apply Forall_forall. intros e He. unfold base_ok. rewrite forallb_forall in A, B, E2. auto.
+  apply Forall_forall. intros e He. unfold base_ok. rewrite forallb_forall in A, B, E2, N. auto.
 Qed.
 
 Lemma compat1_frozen_ok : forall q ma mb, frozen ma = false -> frozen_ok q ma mb = true.
@@ -394,6 +394,58 @@ Proof.
   split; auto. unfold frozen_value_ok. simpl. rewrite F. discriminate.
 Qed.
 
+Lemma enum_go_inv : forall b c l s, enum_extend_go b c l = Ok s ->
+  s = c /\ forall w, In w l -> exists r, apply false b w = Ok r.
+Proof.
+  induction l as [|v r IH]; simpl; intros s H.
+  - inv H. split; auto. intros w [].
+  - destruct (apply false b v) eqn:A.
+    + destruct (IH _ H) as [E ACC]. split; auto. intros w [X|I]; subst; eauto.
+    + destruct e; discriminate.
+Qed.
+
+(* a value an unfrozen Enum accepts is (==) one of its candidates *)
+Lemma enum_accept_in : forall vals mb w r, frozen mb = false ->
+  Bool.eqb (noneable mb) (has_none vals) = true ->
+  apply false (SEnum vals mb) w = Ok r -> py_in w vals = true.
+Proof.
+  intros vals mb w r F EN H. rewrite apply_eq in H.
+  destruct (type_of w) eqn:T.
+  - rewrite pipeline_typed in H by (simpl; congruence).
+    destruct (coerce (vtype (SEnum vals mb)) w) as [w1|] eqn:C; simpl in H; [|discriminate].
+    destruct (py_in w1 vals) eqn:I; inv H.
+    simpl in C. destruct (enum_vtype vals) as [ts|]; simpl in C; [|inv C; auto].
+    destruct (isinstance w ts); [inv C; auto|].
+    unfold convert in C. destruct (existsb is_float ts); [|discriminate].
+    destruct (conv_float w) eqn:CF; inv C.
+    unfold py_in in *. apply existsb_exists in I as [u [Iu E]]. apply existsb_exists. exists u. split; auto.
+    rewrite <- E. destruct w; simpl in CF; inv CF; eapply py_eq_num_congr; simpl; eauto.
+  - unfold pipeline in H. cbn [mods_of] in H. rewrite F in H.
+    destruct w; simpl in T; try discriminate.
+    destruct (noneable mb) eqn:N; [|discriminate].
+    apply Bool.eqb_prop in EN. unfold has_none in EN. unfold py_in.
+    symmetry in EN. apply existsb_exists in EN as [u [Iu Eu]]. apply existsb_exists. exists u. split; auto.
+    destruct u; try discriminate. reflexivity.
+Qed.
+
+(* candidates accepted by an int- (bool-) typed Enum are instances of int (bool) *)
+Lemma enum_accept_typed : forall vals mb t0 vs, frozen mb = false ->
+  enum_vtype vals = Some [t0] -> is_float t0 = false ->
+  (forall w, In w vs -> exists r, apply false (SEnum vals mb) w = Ok r) ->
+  all_typed_within vs t0 = true.
+Proof.
+  intros vals mb t0 vs F VT NF ACC. unfold all_typed_within. apply forallb_forall. intros w Iw.
+  destruct (ACC _ Iw) as [r H]. rewrite apply_eq in H.
+  destruct (type_of w) as [tw|] eqn:T.
+  - rewrite pipeline_typed in H by (simpl; congruence).
+    destruct (coerce (vtype (SEnum vals mb)) w) as [w1|] eqn:C; simpl in H; [|discriminate].
+    simpl in C. rewrite VT in C. apply coerce_nofloat in C as [_ I]; [|simpl; rewrite NF; reflexivity].
+    unfold isinstance in I. rewrite T in I. simpl in I. rewrite orb_false_r in I.
+    destruct w; simpl in *; try discriminate; inv T; exact I.
+  - destruct w; simpl in T; try discriminate; auto.
+    unfold pipeline in H. cbn [mods_of] in H. rewrite F in H. discriminate.
+Qed.
+
 Ltac leaf_good Fc :=
   unfold good; split; [|split; [|split; [|split; [|split]]]];
   try reflexivity; try (simpl; rewrite Fc; reflexivity); try (apply wf_unfrozen_leaf; simpl; auto).
@@ -403,7 +455,7 @@ Proof.
   intros q (Q1 & Q2 & Q3 & Q4 & Q5).
   induction c using spec_ind'; intros G b c' B HX;
     pose proof G as G0; destruct G as (NU & NS & NF & NE & SZ & W);
-    destruct B as (NUb & NSb & SZb);
+    destruct B as (NUb & NSb & SZb & ENb);
     pose proof (no_frozen_top _ NF) as Fc; cbn [mods_of] in Fc;
     rewrite extend_in_eq in HX; unfold extend_in1, frozen_base_bad in HX; cbn [mods_of] in HX;
     rewrite Fc in HX; cbn [negb orb andb] in HX; rewrite andb_true_r in HX;
@@ -440,13 +492,25 @@ Proof.
     eapply finish; [reflexivity | exact G0 | exact HX | ].
     rewrite compat_eq. unfold compat1. cbn [mods_of] in *.
     rewrite compat1_frozen_ok by auto. exact NO.
-  - (* Enum: excluded *)
-    simpl in NE. discriminate.
+  - (* Enum child of an Enum base: every candidate is acceptable to the base *)
+    destruct b; try discriminate. cbn [extend_class] in HX.
+    destruct (enum_extend_go (SEnum vals m0) (SEnum vs m) vs) as [s|] eqn:EG; [|discriminate].
+    destruct (enum_go_inv _ _ _ _ EG) as [E ACC]. subst s.
+    eapply finish; [reflexivity | exact G0 | exact HX | ].
+    rewrite compat_eq. unfold compat1. cbn [mods_of] in *.
+    rewrite compat1_frozen_ok by auto. rewrite Fc. cbn [andb orb].
+    rewrite NO. cbn [andb]. apply andb_true_iff. split.
+    + apply forallb_forall. intros w Iw. destruct (ACC _ Iw) as [r Hr].
+      simpl in ENb. eapply enum_accept_in; [exact Fb | exact ENb | exact Hr].
+    + unfold enum_types_ok. rewrite Q4. cbn [orb enum_vals].
+      destruct (enum_vtype vals) as [[|t [|t2 r2]]|] eqn:VT; auto.
+      * destruct t; auto; (eapply enum_accept_typed; [exact Fb | exact VT | reflexivity | exact ACC]).
+      * destruct t; reflexivity.
   - (* List *)
     destruct b; try discriminate. cbn [extend_class] in HX.
     destruct (listkey_extend mn mx mn0 mx0) as [mx'|] eqn:LK; cbn [bind] in HX; [|discriminate].
     destruct (extend_in q c b) as [e'|] eqn:EE; cbn [bind] in HX; [|discriminate].
-    simpl in NU, NS, NF, NE, SZ, NUb, NSb, SZb.
+    simpl in NU, NS, NF, NE, SZ, NUb, NSb, SZb, ENb.
     apply andb_true_iff in NF as [_ NF]. apply andb_true_iff in SZ as [SZ1 SZ].
     apply andb_true_iff in SZb as [SZb1 SZb].
     destruct (IHc (conj NU (conj NS (conj NF (conj NE (conj SZ (wf_list _ _ _ _ W)))))) b e') as [Ce Ge];
@@ -459,7 +523,7 @@ Proof.
   - (* Tuple *)
     destruct b; try discriminate. cbn [extend_class] in HX.
     destruct (good_tuple_inv _ _ _ _ G0) as (_ & MN0 & Ges & GNE).
-    destruct (base_tuple_inv _ _ _ _ (conj NUb (conj NSb SZb))) as (BMN0 & Bes & BNE).
+    destruct (base_tuple_inv _ _ _ _ (conj NUb (conj NSb (conj SZb ENb)))) as (BMN0 & Bes & BNE).
     assert (IHes : Forall (ext_ok q) es).
     { rewrite Forall_forall in *. intros e He. apply H; auto. }
     destruct (fixed_length mn mx) eqn:FA.
